@@ -233,7 +233,12 @@ static int spec_errno(int e) {
     case EISDIR: return 31; case ELOOP: return 32; case EMFILE: return 33; case EMLINK: return 34; case ENAMETOOLONG: return 37; case ENFILE: return 41;
     case ENODEV: return 43; case ENOENT: return 44; case ENOEXEC: return 45; case ENOMEM: return 48; case ENOSPC: return 51; case ENOTDIR: return 54;
     case ENOTTY: return 59; case ENXIO: return 60; case EPERM: return 63; case EPIPE: return 64; case ERANGE: return 68; case EROFS: return 69; case ESPIPE: return 70;
-    case ESRCH: return 71; case ETXTBSY: return 74; case EXDEV: return 75; default: return -1; } }
+    case ESRCH: return 71; case ETXTBSY: return 74; case EXDEV: return 75;
+    case ENOTEMPTY: return 55; case ENOSYS: return 52; case EOVERFLOW: return 61; default: return -1; } }
+/* every host errno that has a WASI counterpart and that file-system calls commonly report */
+static const int fs_errnos[] = { E2BIG, EACCES, EAGAIN, EBADF, EBUSY, ECHILD, EDOM, EEXIST, EFAULT, EFBIG, EINTR, EINVAL, EIO, EISDIR, ELOOP, EMFILE, EMLINK, ENAMETOOLONG, ENFILE, ENODEV, ENOENT,
+    ENOEXEC, ENOMEM, ENOSPC, ENOTDIR, ENOTTY, ENXIO, EPERM, EPIPE, ERANGE, EROFS, ESPIPE, ESRCH, ETXTBSY, EXDEV, ENOTEMPTY, ENOSYS, EOVERFLOW };
+#define N_FS_ERRNOS ((int)(sizeof fs_errnos / sizeof fs_errnos[0]))
 
 static char* empty_envp[1] = { 0 };
 static void table_init(void) { bool ok = wasiInit(0, empty_envp, empty_envp); V_ASSUME(ok); }
